@@ -231,6 +231,37 @@ func c14Check(c c14Case, rec *evid.Recorder) (fl *Fail) {
 			return fail
 		}
 	}
+	// a parser is independent of what happens to its builder after Build: the
+	// builder is reconfigured for the next parser (modes flipped, one more
+	// interceptor) and used, and only then the first parser parses
+	probes := append([]string{"a\n(b)\n[c]\nlet f = g\n(1)", "let x = 1 let y = 2\nif (x) { y\n{ z", "x++ y\n(z)"}, c.Inputs...)
+	for b := 0; b < len(c.Specs) && b < 3; b++ {
+		for i := 0; i < len(probes) && i < 5; i++ {
+			aloneB := c14MakeBuilder(c.Specs[b])
+			ap := aloneB.Build(probes[i])
+			aprog, _ := ap.ParseProgram()
+			want := c14Digest("", aprog, ap.Errors(), Cfg{}, compiler.New())
+
+			pb := c14MakeBuilder(c.Specs[b])
+			p1 := pb.Build(probes[i])
+			pb.WithTolerantMode(!c.Specs[b].Mode.Tolerant)
+			pb.WithSmartSemicolon(!c.Specs[b].Mode.Smart)
+			late := 0
+			pb.UseStatementInterceptor(func(p *parser.Parser, next func() ast.Statement) ast.Statement { late++; return next() })
+			pb.UseExpressionInterceptor(func(p *parser.Parser, next func() ast.Expression) ast.Expression { late++; return next() })
+			p2 := pb.Build(probes[(i+1)%len(probes)])
+			p2.ParseProgram()
+			before := late
+			prog1, _ := p1.ParseProgram()
+			if late != before {
+				return failf("an interceptor installed on the builder after Build runs in the parser built before (builder %+v)\ninput %q", c.Specs[b], probes[i])
+			}
+			if got := c14Digest("", prog1, p1.Errors(), Cfg{}, compiler.New()); got != want {
+				return failf("a parser built before its builder was reconfigured (modes flipped, interceptors added, another parser built and used) gives a different result than a parser of the same configuration used alone (builder %+v)\nalone %s\nlate  %s\ninput %q", c.Specs[b], trunc(want, 400), trunc(got, 400), probes[i])
+			}
+			rec.Class("history:builder-reconfigured-after-build")
+		}
+	}
 	// global tables untouched
 	if !reflect.DeepEqual(kwSnap, token.Keywords) {
 		return failf("token.Keywords changed during the run")
